@@ -27,7 +27,10 @@ pub fn damaged_pdu(rng: &mut Rng, good: &[u8]) -> Vec<u8> {
             let i = rng.below(p.len());
             p[i] = rng.u8();
         }
-        3 if !p.is_empty() => p[0] = rng.u8(),
+        3 if !p.is_empty() => {
+            // the function code replaced: any byte, often one at the border of the exception range
+            p[0] = if rng.bool() { *rng.pick(&[0x00u8, 0x7F, 0x80, 0x81, 0xFF]) } else { rng.u8() };
+        }
         4 if p.len() > 1 => {
             // the field that usually carries a count
             let i = if p.len() > 5 && rng.bool() { 5 } else { 1 };
@@ -40,7 +43,7 @@ pub fn damaged_pdu(rng: &mut Rng, good: &[u8]) -> Vec<u8> {
 }
 
 fn emit(out: &mut Out, line: &str) {
-    if out.monitored {
+    if out.monitored || out.metamorphic {
         monitor_line(out, line);
     } else {
         out.case(line);
@@ -310,8 +313,13 @@ pub fn gen_srv_histories(out: &mut Out, rng: &mut Rng, n: usize) {
                     let good = spec::request_bytes(&gen_request(rng, None)).unwrap_or_else(|| vec![3, 0, 0, 0, 1]);
                     let p = damaged_pdu(rng, &good);
                     data.extend(frame(kind, tid, unit, &p));
-                    // (should it happen to be well-formed, the service has an answer)
-                    svc.push(Svc::Reply(Response::ReadCoils(vec![true; 8])));
+                    // (should the library take it for a request, the service has an outcome for it –
+                    // an answer, a refusal or nothing)
+                    svc.push(match rng.below(3) {
+                        0 => Svc::Reply(Response::ReadCoils(vec![true; 8])),
+                        1 => Svc::Exception(tokio_modbus::ExceptionCode::new(rng.exc_code())),
+                        _ => Svc::Decline,
+                    });
                 }
                 1 => {
                     // malformed but framed
